@@ -810,7 +810,9 @@ func (ue *UdpEndpoint) selfRemoveFromPool() {
 func (ue *UdpEndpoint) retire() {
 	ue.dead.Store(true)
 	ue.expiresAtNano.Store(1)
+	verifYield("retire.afterMarkDead", ue)
 	ue.selfRemoveFromPool()
+	verifYield("retire.afterSelfRemove", ue)
 	_ = ue.Close()
 }
 
@@ -1374,6 +1376,7 @@ func (p *UdpEndpointPool) InvalidateDialerNetworkType(d *dialer.Dialer, networkT
 	if counter := p.dialerEpochCounter(d, *networkType); counter != nil {
 		counter.Add(1)
 	}
+	verifYield("invalidate.afterEpochBump", d)
 
 	actual, ok := p.dialerIndex.Load(key)
 	if !ok {
@@ -1595,10 +1598,12 @@ dialSuccess:
 
 	ue.RefreshTtlWithTime(createOption.NowNano)
 
+	verifYield("create.beforePublish", ue)
 	shard := p.shardFor(key)
 	shard.mu.Lock()
 	shard.pool[key] = ue
 	shard.mu.Unlock()
+	verifYield("create.afterPublish", ue)
 	p.registerEndpoint(ue)
 
 	// Receive UDP messages.
@@ -1700,6 +1705,7 @@ func (p *UdpEndpointPool) GetOrCreate(key UdpEndpointKey, createOption *UdpEndpo
 	}
 	shard.mu.RUnlock()
 
+	verifYield("getOrCreate.afterFastPathMiss", key)
 	// Slow path: serialize creation for the same key using a creation shard lock.
 	shard.createMu.Lock()
 	defer shard.createMu.Unlock()
@@ -1737,6 +1743,7 @@ func (p *UdpEndpointPool) GetOrCreate(key UdpEndpointKey, createOption *UdpEndpo
 		}
 	}
 	shard.mu.Unlock()
+	verifYield("getOrCreate.afterRecheckMiss", key)
 	if staleToClose != nil {
 		_ = staleToClose.Close()
 	}
@@ -1781,6 +1788,7 @@ func (p *UdpEndpointPool) startJanitor() {
 						}
 						shard.mu.Unlock()
 						for _, ue := range toClose {
+							verifYield("janitor.beforeClose", ue)
 							_ = ue.Close()
 						}
 					}
